@@ -179,6 +179,9 @@ func genValues(rng *rand.Rand, n int) []uint64 {
 	return vals
 }
 
+// sequence numbers from smallFrom on are "small" sequences (see runSeq)
+const smallFrom = 1000000
+
 type selCase struct {
 	Utxos     []mUtxo `json:"utxos"`
 	Amount    int64   `json:"amount"`
@@ -207,12 +210,18 @@ func TestC26(t *testing.T) {
 			}
 		}(w)
 	}
+	nSmall := r.N(600, 6000)
 	for s := 0; s < nSeq; s++ {
 		jobs <- s
 	}
+	for s := 0; s < nSmall; s++ {
+		jobs <- smallFrom + s
+	}
 	close(jobs)
 	wg.Wait()
-	r.Require("selected", nSeq/2)
+	r.Require("selected", nSeq/2+nSmall/2)
+	r.Require("equal_value_outputs_of_one_transaction", nSmall/20)
+	r.Require("dusty_vault_sequences", nSmall/6)
 	r.Require("refused", 1)
 	r.Require("selected_via_makeBtcTx", nSeq/20)
 }
@@ -347,18 +356,45 @@ func runSeq(t *testing.T, r *kit.Run, env *env, s int) {
 	if rng.Intn(4) == 0 {
 		n = 1 + rng.Intn(5)
 	}
+	// small sequences (s >= smallFrom): few outputs, so the real branch-and-bound search is cheap and
+	// many more selections (in particular through the sorted fallback search) fit into a run; they
+	// also carry many same-transaction outputs, half of them with the value of their sibling
+	small := s >= smallFrom
+	if small {
+		n = 2 + rng.Intn(13)
+	}
 	vals := genValues(rng, n)
+	// "dusty vault" shape: a minimum change so large that [amount+minChange, 4*amount] is empty (the
+	// branch-and-bound search can then only succeed on an exact match), outputs worth a quarter to half
+	// of the minimum change and a low fee rate: the sorted fallback search needs three or more
+	// outputs before it reaches amount+minChange and then tries to swap the last one for smaller ones
+	dusty := small && rng.Intn(3) == 0
+	dustyMC := uint64(12000 + rng.Intn(10000))
+	if dusty {
+		if n < 5 {
+			n = 5 + rng.Intn(8)
+			vals = make([]uint64, n)
+		}
+		for i := range vals {
+			vals[i] = dustyMC/4 + uint64(rng.Int63n(int64(dustyMC/4)))
+		}
+		r.Count("dusty_vault_sequences", 1)
+	}
 	model := make([]mUtxo, n)
 	var recs []*btc.Utxo
 	for i := range model {
 		txc++
 		h := sha256.Sum256([]byte(fmt.Sprintf("tx-%d-%d-%d", r.Seed, s, txc)))
 		idx := uint32(0)
-		if i > 0 && rng.Intn(25) == 0 {
+		if i > 0 && (rng.Intn(25) == 0 || (small && rng.Intn(3) == 0)) {
 			// a second output of the previous transaction (change-to-self shape)
 			hh, _ := hex.DecodeString(model[i-1].Hash)
 			copy(h[:], hh)
 			idx = model[i-1].Index + 1
+			if small && rng.Intn(2) == 0 {
+				vals[i] = vals[i-1]
+				r.Count("equal_value_outputs_of_one_transaction", 1)
+			}
 		}
 		wit := rng.Intn(2) == 0
 		model[i] = mUtxo{Hash: hex.EncodeToString(h[:]), Index: idx, Value: vals[i], Wit: wit}
@@ -370,6 +406,9 @@ func runSeq(t *testing.T, r *kit.Run, env *env, s int) {
 	}
 	feeRate := uint64(1 + rng.Intn(60))
 	minChange := uint64(2000 + rng.Intn(20000))
+	if dusty {
+		feeRate, minChange = uint64(1+rng.Intn(2)), dustyMC
+	}
 	// install the records (fresh sets for this sequence)
 	svc := env.e.Service()
 	btc.VerifPutUtxos(svc, btcChainID, hex.EncodeToString(env.rk), &btc.Utxos{Utxos: recs})
@@ -398,6 +437,9 @@ func runSeq(t *testing.T, r *kit.Run, env *env, s int) {
 			amount = int64(total) - int64(rng.Intn(3000))
 		default:
 			amount = int64(1000 + rng.Int63n(int64(total+1)))
+		}
+		if dusty {
+			amount = 3000 + rng.Int63n(int64(minChange/3)-3000)
 		}
 		if amount <= 0 {
 			amount = 1000
